@@ -182,6 +182,12 @@ func (e *Engine) mergeValue(c *Term, a, b Value) Value {
 	if b == nil {
 		return a
 	}
+	if p, ok := a.(*Poison); ok {
+		return p
+	}
+	if p, ok := b.(*Poison); ok {
+		return p
+	}
 	switch x := a.(type) {
 	case *Term:
 		y, ok := b.(*Term)
@@ -192,7 +198,7 @@ func (e *Engine) mergeValue(c *Term, a, b Value) Value {
 			return x
 		}
 		if x.S != y.S {
-			panic(unsupported("merge of sorts %v and %v", x.S, y.S))
+			return &Poison{Why: fmt.Sprintf("merge of sorts %v and %v", x.S, y.S)}
 		}
 		return e.st.Ite(c, x, y)
 	case *Ptr:
